@@ -729,10 +729,10 @@ void run_c10(Judge& j, uint64_t n) {
 }
 
 // ------------------------------------------------------------------------------------------------ C12: keep-alive
-void run_c12(Judge& j, uint64_t n) {
+void run_c12(Judge& j, uint64_t n, int64_t only = -1) {
     const FamilyCtx& ctx = j.ctx;
     for (uint64_t i = 0; i < n; ++i) {
-        if (int(i % ctx.nshards) != ctx.shard) continue;
+        if (only >= 0 ? (int64_t)i != only : int(i % ctx.nshards) != ctx.shard) continue;
         vu::Rng rng(ctx.seed * 6700417 + i * 257 + 3);
         Scenario sc; sc.family = "c12-keepalive"; sc.seed = ctx.seed; sc.index = i;
         uint16_t K = rng.pick(std::vector<uint16_t>{0, 1, 1, 2, 2, 5, 5, 60, 300, 65535});
@@ -770,13 +770,14 @@ void run_c12(Judge& j, uint64_t n) {
         }
         if (rng.chance(1, 4)) { Fault f; f.kind = Fault::reset_b2c; f.conn_ordinal = 0; f.at = rng.range(5, 40); sc.faults.push_back(f); }
         // silence that begins in the middle of a packet: the bytes stop after the CONNACK somewhere inside later traffic
-        else if (rng.chance(1, 4)) { Fault f; f.kind = Fault::stall_b2c; f.conn_ordinal = (int)rng.below(2); f.at = rng.range(6, 60); sc.faults.push_back(f); }
+        else if (rng.chance(1, 4)) { Fault f; f.kind = Fault::stall_b2c; f.conn_ordinal = (int)rng.below(2); f.at = rng.range(1, 40);   /* bytes after the CONNACK */ sc.faults.push_back(f); }
         sc.end = eff ? talk_until + 8 * unit + 30 * SEC : 3600 * SEC;
         vu::set_case(sc.family + " index=" + std::to_string(i));
         auto ex = execute(sc);
         j.judge(sc, *ex);
         if (mode >= 1 && eff) j.res.count("silence_scenarios");
-        for (auto& f : ex->world->faults) if (f.kind == Fault::stall_b2c && f.fired && eff) j.res.count("midpacket_stalls_with_keepalive");
+        for (auto& f : ex->world->faults) if (f.kind == Fault::stall_b2c && f.fired && eff) { j.res.count("midpacket_stalls_with_keepalive"); if (ctx.args.has("list-stalls")) printf("STALL index=%llu\n", (unsigned long long)i); }
+        if (only >= 0) printf("%s\n%s\n", sc.describe().c_str(), ex->world->h.dump(3000).c_str());
     }
 }
 
@@ -1338,6 +1339,7 @@ int run_families(const FamilyCtx& ctx, vu::Result& res) {
     Judge j{ctx, res};
     const std::string& P = ctx.prop;
     bool T = ctx.thorough;
+    if (ctx.args.has("replay-c12")) { run_c12(j, 1000000, ctx.args.num("replay-c12")); for (auto& v : res.violations) printf("VIOLATION %s %s\n", v.key.c_str(), v.what.c_str()); return 0; }
     if (ctx.args.has("replay-c19")) { run_c19(j, 1000000, ctx.args.num("replay-c19")); for (auto& v : res.violations) printf("VIOLATION %s %s\n", v.key.c_str(), v.what.c_str()); return 0; }
     if (ctx.args.has("replay-mix")) {
         // re-run one generated scenario and print its history: --replay-mix <family> --index N
